@@ -26,3 +26,23 @@ package fox
 //@   ensures attrs: len(logAttrs[log]) >= 5 && logAttrs[log][0] == attrInt("status", seenStatus(c, hCalls)) && logAttrs[log][1] == attrStr("method", ctxMethod(c, hCalls)) && logAttrs[log][2] == attrStr("host", ctxHost(c, hCalls)) && logAttrs[log][3] == attrStr("path", ctxPath(c, hCalls))
 //@   ensures location: level(seenStatus(c, hCalls)) == -4 && len(seenLocation(c, hCalls)) > 0 ==> len(logAttrs[log]) == 6 && logAttrs[log][5] == attrStr("location", seenLocation(c, hCalls))
 //@   ensures no-location: !(level(seenStatus(c, hCalls)) == -4 && len(seenLocation(c, hCalls)) > 0) ==> len(logAttrs[log]) == 5
+
+//@ -- ---------------------------------------------------------------- C13: middleware chains
+
+//@ -- chain(mws, scope, h, i): h wrapped by the entries mws[i:] whose scope intersects `scope`,
+//@ -- each exactly once, earlier entries outermost
+//@ fun rec chain(mws []middleware, scope HandlerScope, h HandlerFunc, i int) HandlerFunc = (i < 0 || i >= len(mws)) ? h : ((mws[i].scope & scope) != 0 ? app(mws[i].m, chain(mws, scope, h, i+1)) : chain(mws, scope, h, i+1))
+//@ -- rchain: the route chains; onlyRoute selects the route-specific entries (g == false)
+//@ fun rec rchain(mws []middleware, h HandlerFunc, i int, onlyRoute bool) HandlerFunc = (i < 0 || i >= len(mws)) ? h : (((mws[i].scope & RouteHandler) != 0 && (!onlyRoute || !mws[i].g)) ? app(mws[i].m, rchain(mws, h, i+1, onlyRoute)) : rchain(mws, h, i+1, onlyRoute))
+
+//@ func applyMiddleware props C13
+//@   requires forall k int :: {mws[k]} 0 <= k && k < len(mws) ==> mws[k].m != nil
+//@   ensures result == chain(mws, scope, h, 0)
+//@   loop 1: invariant -1 <= i && i < len(mws) && m == chain(mws, scope, h, i+1)
+//@   loop 1: decreases i + 1
+
+//@ func applyRouteMiddleware props C13
+//@   requires forall k int :: {mws[k]} 0 <= k && k < len(mws) ==> mws[k].m != nil
+//@   ensures result0 == rchain(mws, base, 0, true) && result1 == rchain(mws, base, 0, false)
+//@   loop 1: invariant -1 <= i && i < len(mws) && rte == rchain(mws, base, i+1, true) && all == rchain(mws, base, i+1, false)
+//@   loop 1: decreases i + 1
